@@ -3,6 +3,9 @@
 package swap
 
 import (
+	"math"
+	"time"
+
 	"github.com/elementsproject/peerswap/messages"
 	"github.com/elementsproject/peerswap/zzverif"
 )
@@ -48,6 +51,14 @@ func vStepMaker(role int, st StateType) {
 	w.narrow = d
 	// ---- pre-state ghosts ----
 	broadcast0 := d.OpeningTxBroadcasted != nil
+	zzverif.Assume(d.GetAmount() <= vMaxAmountSat) // input domain: amounts up to 2^63 msat
+	if role == rInSender && broadcast0 {
+		// the swap-in initiator broadcasts only after CheckPremiumAmount accepted the agreement; the
+		// messages are immutable afterwards, so the premium of a broadcast swap is inside what it accepts
+		amount, premium := d.GetAmount(), d.GetPremium()
+		zzverif.Assume(premium <= d.SwapInRequest.PremiumLimit)
+		zzverif.Assume((premium >= 0 && uint64(premium) <= math.MaxUint64/1000-amount) || (premium < 0 && premium != math.MinInt64 && uint64(-premium) <= amount))
+	}
 	if vPostBroadcastWaiting(st) {
 		// invariant (re-established below): a waiting maker has a live CSV watch on its output
 		w.watchesLive = append(w.watchesLive, vWatch{kind: "csv", swapID: sc.id, txID: d.OpeningTxBroadcasted.TxId, vout: d.OpeningTxBroadcasted.ScriptOut})
@@ -95,6 +106,20 @@ func vStepMaker(role int, st StateType) {
 		zzverif.Assert(stopped, "C22.retransmitter_stopped_on_leaving")
 	}
 	zzverif.Assert(w.senderAdds <= 1, "C22.at_most_one_retransmitter")
+	// every retransmission goroutine that was started belongs to a sender registered with the manager
+	// (so that leaving the state can stop it).  Symbolically: goroutines started <= senders registered;
+	// natively: nothing is re-sent after the step while no sender is registered (retry interval 1 s in
+	// the fast_test build the replays use).
+	leaked := false
+	if zzverif.Symbolic() {
+		leaked = zzverif.Spawned() > w.senderAdds
+	} else {
+		n0 := len(w.sends)
+		time.Sleep(1500 * time.Millisecond)
+		_, reg := sc.env.msgMgr.senders[sc.id]
+		leaked = len(w.sends) > n0 && !reg
+	}
+	zzverif.Assert(!leaked, "C22.no_unregistered_retransmitter")
 	// ---- C26 ----
 	if post == State_ClaimedCsv && st != State_ClaimedCsv {
 		zzverif.Reach("maker.claimed_csv")
